@@ -561,6 +561,27 @@ int main(int argc, char **argv) {
             else { printf("%d ok sect=%d type=%d size=%u acc=%d name=", lineno, s, e.secType, e.secType == ST_FILE ? e.byteSize : 0, e.access);
                    char nm[32]; unsigned l = e.nameLen > 30 ? 30 : e.nameLen; memcpy(nm, e.name, l); nm[l] = 0; printhex(nm); putchar('\n'); }
         }
+        else if (!strcmp(c, "dirchains")) { /* dirchains <dirpath> : hash table and chains of a directory, read raw block by block (no library lookup code) */
+            if (goto_dir(a[1])) { out("err nopath"); continue; }
+            uint8_t db[512], eb[512];
+            if (adfReadBlock(vol, vol->curDirPtr, db) != RC_OK) { out("err read"); continue; }
+            printf("%d S ", lineno); int first = 1;
+            for (int i = 0; i < 72; i++) {
+                uint32_t s = ((uint32_t)db[24 + 4 * i] << 24) | (db[25 + 4 * i] << 16) | (db[26 + 4 * i] << 8) | db[27 + 4 * i];
+                if (!s) continue;
+                printf("%s%d=", first ? "" : ";", i); first = 0;
+                int guard = 0, firstb = 1;
+                while (s && guard++ < 4000) {
+                    if (adfReadBlock(vol, s, eb) != RC_OK) { printf("%s%u:?", firstb ? "" : ",", s); break; }
+                    unsigned nl = eb[432]; if (nl > 30) nl = 30;
+                    printf("%s%u:", firstb ? "" : ",", s); firstb = 0;
+                    if (!nl) putchar('-');
+                    for (unsigned k = 0; k < nl; k++) printf("%02x", eb[433 + k]);
+                    s = ((uint32_t)eb[496] << 24) | (eb[497] << 16) | (eb[498] << 8) | eb[499];
+                }
+            }
+            putchar('\n');
+        }
         else if (!strcmp(c, "fileblocks")) { /* fileblocks <dirpath> <name> : the block lists of a file (adfGetFileBlocks, read-only) */
             if (goto_dir(a[1])) { out("err nopath"); continue; }
             struct bEntryBlock e;
